@@ -287,6 +287,10 @@ def run_case(case, fail, stats):
         expr_t = case.get("expr")
         if expr_t is not None:
             env.r[name] = env.build(expr_t)
+        if case.get("child_def"):
+            # a member of the container at `name` is defined by an expression; the container location itself is not
+            ci, ct = case["child_def"]
+            env.r[name][ci] = env.build(ct)
         ntasks0 = len(env.m.tasks)
         operand = env.build(operand_t)
         oldv = env.box[name]
@@ -546,6 +550,8 @@ def run_case(case, fail, stats):
             res = outcome(lambda: m2.load(env.m.dump()))
         else:
             holder = {"in": copy.deepcopy(env.box)}
+            if case.get("shadow_outer"):
+                case = dict(case, shadow=True)
             if case.get("shadow"):
                 # the destination's container carries the SAME label as the source and holds, one level up, locations
                 # of the same names with other values; the targets are already defined there by expressions that
@@ -564,7 +570,13 @@ def run_case(case, fail, stats):
                 env3.__dict__.update(env.__dict__)
                 env3.m, env3.r, env3.box, env3.f = m2, h2, holder, f2
                 for i, t in enumerate(case["defs"]):
-                    outcome(lambda: r2.__setitem__(case["targets"][i], env3.build(t)))
+                    if case.get("shadow_outer"):
+                        # the look-alike definition sits at the OUTER location of the same name: its printed id equals
+                        # the source's target text, while the real (rebound) target has no definition yet
+                        holder[case["targets"][i]] = None
+                        outcome(lambda: h2.__setitem__(case["targets"][i], env3.build(t)))
+                    else:
+                        outcome(lambda: r2.__setitem__(case["targets"][i], env3.build(t)))
             res = outcome(lambda: m2.copy_expr_from(env.m, "r", {env.m.containers["r"]: r2},
                                                     overwrite=case.get("overwrite", True)))
         if res[0] != "ok":
@@ -847,6 +859,11 @@ def cases_c04(rng, n):
             yield {"kind": "iop", "vals": vals, "iop": op, "name": "v0", "operand": ["ref", "v1"]}
             yield {"kind": "iop", "vals": vals, "iop": op, "name": "v0", "operand": ["lit", b],
                    "expr": ["bin", "add", ["ref", "v2"], ["lit", {"int": 9}]]}
+    # in-place operators on a container-valued location one of whose members has a definition
+    for op in ("mul", "add", "sub"):
+        for operand in ({"int": 2}, {"int": 0}):
+            yield {"kind": "iop", "vals": {"v0": {"int": 12}, "v1": {"int": 3}, "v2": {"int": 3}, "v3": {"int": 2}}, "iop": op,
+                   "name": "L", "operand": ["lit", operand], "child_def": [0, ["bin", "mul", ["ref", "v1"], ["lit", {"int": 2}]]]}
     for i in range(n):
         vals = gen_vals(rng)
         t = gen_term(rng, rng.randint(1, 5))
@@ -932,7 +949,8 @@ def cases_c12(rng, n):
 
 
 KEYS = ["a", "b", "ab", "a'b", 'a"b', "a]", "[a", "a.b", "a['b']", "c['a']", "é", "a b", "\\", "a\\'", "0", "1", "-1", "1.5", "",
-        0, 1, -1, 10, 2 ** 70, {"f": (1.5).hex()}, {"f": (-0.25).hex()}, {"t": [1, "a"]}, {"t": [1, 2]}, {"t": ["a", {"t": [1]}]}]
+        0, 1, -1, 10, 2 ** 70, {"f": (1.5).hex()}, {"f": (-0.25).hex()}, {"t": [1, "a"]}, {"t": [1, 2]}, {"t": ["a", {"t": [1]}]},
+        {"t": [1]}, {"t": ["a"]}, {"t": []}, {"t": [{"t": [1]}]}]
 ATTRS = ["a", "b", "ab", "x1", "_p"]
 
 
@@ -951,7 +969,8 @@ def cases_c06(rng, n):
     # confusable pairs on purpose
     paths += [[["i", "a"], ["i", "b"]], [["i", "a']['b"]], [["i", "a"], ["a", "b"]], [["a", "a"], ["i", "b"]], [["i", "a.b"]],
               [["i", 1]], [["i", "1"]], [["i", {"f": (1.0).hex()}]], [["i", -1]], [["i", "-1"]], [["i", {"t": [1, 2]}]], [["i", "(1, 2)"]],
-              [["i", "a"], ["i", 0]], [["i", "a"], ["i", "0"]], [["a", "a"], ["a", "b"]], [["i", "c['a']"]], [["i", "c"], ["i", "a"]]]
+              [["i", "a"], ["i", 0]], [["i", "a"], ["i", "0"]], [["i", {"t": [1]}]], [["i", "k"], ["i", {"t": ["a"]}]], [["i", "k"], ["i", "a"]],
+              [["i", {"t": [1, 2]}]], [["i", 1], ["i", 2]], [["a", "a"], ["a", "b"]], [["i", "c['a']"]], [["i", "c"], ["i", "a"]]]
     k = 0
     for p in paths:
         for q in paths:
@@ -1014,6 +1033,9 @@ def cases_c11(rng, n):
            "preexisting": ["out", "v3"], "overwrite": False, "follow": [["v0", {"int": 10}]]}
     yield {"kind": "copyfrom", "vals": tricky, "targets": ["out"], "defs": [["bin", "add", ["ref", "v0"], ["ref", "v1"]]],
            "preexisting": ["out", "v3"], "overwrite": True, "follow": [["v0", {"int": 10}]]}
+    yield {"kind": "copyfrom", "vals": tricky, "targets": ["out", "o2"], "shadow_outer": True, "overwrite": False,
+           "defs": [["bin", "add", ["ref", "v0"], ["ref", "v1"]], ["bin", "mul", ["ref", "v2"], ["lit", {"int": 3}]]],
+           "follow": [["v0", {"int": 10}], ["v2", {"int": -1}]]}
     yield {"kind": "copyfrom", "vals": tricky, "targets": ["out", "o2"], "shadow": True,
            "defs": [["bin", "add", ["ref", "v0"], ["ref", "v1"]], ["bin", "mul", ["ref", "v2"], ["lit", {"int": 3}]]],
            "follow": [["v0", {"int": 10}], ["v2", {"int": -1}]]}
@@ -1029,6 +1051,9 @@ def cases_c11(rng, n):
              "follow": [[rng.choice(NAMES), gen_val(rng, rng.choice(["int", "float"]))] for _ in range(2)]}
         if c["kind"] == "copyfrom" and rng.random() < 0.4:
             c["shadow"] = True
+        elif c["kind"] == "copyfrom" and rng.random() < 0.3:
+            c["shadow_outer"] = True
+            c["overwrite"] = False
         yield c
     k = 0
     while k < n:
